@@ -108,7 +108,10 @@ def _wrap_cancel(ctx, fid, fut, typ, exid, up_cos):
             r = orig()
         finally:
             ctx.depth[thr] = depth
-        E.emit("CancelArrivedRet", f=fid, k=typ, c=exid, a=1 if r else 0, b=cos)
+        # only a call that is not made from inside another cancel() can be the timeout loop's / the shutdown
+        # sweep's own call: nested ones come from done-callbacks (f_or / f_zip cancelling their inputs, ...)
+        E.emit("CancelArrivedRet" if depth == 0 or cos >= 0 else "NestedCancelRet", f=fid, k=typ, c=exid,
+               a=1 if r else 0, b=cos)
         if r and not was_done:
             # which ingredient of the history this was (attribution of failures only, no clause reads it)
             fact = None
